@@ -217,45 +217,121 @@ for meth, cls in (('insert_SyntheticExit', 'SyntheticExit'), ('insert_SyntheticT
         properties=['C14', 'C05'], gen='insert',
     ))
 
-# ---- insert_block_and_control_blocks: run-time contract (tier B for now: checked at every real call, not yet proved)
+# ---- insert_block_and_control_blocks (C14, C06, C12, C18)
 ARCS = '[(p, s) for p in predecessors for s in sorted(set(old.self.graph[p].jump_targets) & set(successors))]'
 A0 = 'get(old.self.name_gen.kinds, "synth_asign", 0)'
+A0N = 'get(self.name_gen.kinds, "synth_asign", 0)'
+VAR = 'var_name("control", get(old.self.name_gen.kinds, "control", 0))'
+OJ, NJ = 'old.self.graph[p]._jump_targets', 'self.graph[p]._jump_targets'
+
+
+def ibc_pred_clauses(table, graph_new='self.graph'):
+    """per-predecessor clauses (p ranges over the processed predecessors); `table` is the value table built so far"""
+    return {
+        'pred-plain': 'ib_plain(old.self.graph[p], self.graph[p])',
+        'pred-branch': 'ib_branch(old.self.graph[p], self.graph[p])',
+        'pred-branch-renamed': 'ib_branch_renamed(old.self.graph[p], self.graph[p])',
+        'pred-branch-table': 'ib_branch_table(old.self.graph[p], self.graph[p])',
+        'pred-len': 'len(%s) == len(%s)' % (NJ, OJ),
+        'pred-kept': 'all(implies(%s[i] not in successors, %s[i] == %s[i]) for i in range(len(%s)))' % (OJ, NJ, OJ, OJ),
+        # every re-routed arc has its own assignment block, whose constant the head maps back to the arc's original target
+        'pred-rerouted': 'all(implies(%s[i] in successors, %s[i] not in old.self.graph and %s[i] != new_name'
+                         ' and is_assign_to(self.graph[%s[i]], %s[i], new_name, %s)'
+                         ' and self.graph[%s[i]].variable_assignment[%s] in %s'
+                         ' and %s[self.graph[%s[i]].variable_assignment[%s]] == %s[i]) for i in range(len(%s)))'
+                         % (OJ, NJ, NJ, NJ, NJ, VAR, NJ, VAR, table, table, NJ, VAR, OJ, OJ),
+    }
+
+
+def ibc_global_clauses(table, count):
+    """clauses about the whole state; `count` is the number of arcs re-routed so far"""
+    return {
+        'kinds-assign': '%s == %s + %s and %s >= 0' % (A0N, A0, count, count),
+        'kinds-control': 'get(self.name_gen.kinds, "control", 0) == get(old.self.name_gen.kinds, "control", 0) + 1',
+        'kinds-nonneg': 'all(self.name_gen.kinds[k] >= 0 for k in self.name_gen.kinds)',
+        'table-keys': 'all(0 <= k and k < %s for k in %s) and all(k in %s for k in range(%s))' % (count, table, table, count),
+        'table-vals': 'all(%s[k] in successors for k in %s)' % (table, table),
+        'dom-old': 'all(k in self.graph for k in old.self.graph)',
+        'assign-blocks': 'all(implies(k not in old.self.graph and k != new_name, is_generated(k, "synth_asign") and %s <= gen_index(k) and gen_index(k) < %s + %s'
+                         ' and is_assign_to(self.graph[k], k, new_name, %s) and self.graph[k].variable_assignment[%s] == gen_index(k) - %s)'
+                         ' for k in self.graph)' % (A0, A0, count, VAR, VAR, A0),
+        'keys': KEYS,
+    }
+
+
+_ens = {}
+_ens['head'] = ('type(self.graph[new_name]) is SyntheticHead and self.graph[new_name].name == new_name and self.graph[new_name]._jump_targets == tuple(successors)'
+                ' and len(self.graph[new_name].backedges) == 0 and self.graph[new_name].variable == %s' % VAR)
+_ens['head-table'] = 'table_ok(self.graph[new_name])'
+_ens['others'] = 'all(self.graph[k] == old.self.graph[k] for k in old.self.graph if k not in predecessors)'
+for _k, _v in ibc_pred_clauses('self.graph[new_name].branch_value_table').items():
+    _ens[_k] = 'all(%s for p in predecessors)' % _v
+for _k, _v in ibc_global_clauses('self.graph[new_name].branch_value_table', '(%s - %s)' % (A0N, A0)).items():
+    if _k not in ('kinds-assign',):
+        _ens[_k] = _v
+
+_outer = {'untouched': 'all(self.graph[k] == old.self.graph[k] for k in old.self.graph if k not in _i_seen)',
+          'new-absent': 'new_name not in self.graph',
+          'var': 'branch_variable == %s' % VAR}
+for _k, _v in ibc_pred_clauses('branch_value_table').items():
+    _outer[_k] = 'all(%s for p in _i_seen)' % _v
+_outer.update(ibc_global_clauses('branch_value_table', 'branch_variable_value'))
+EJ = 'entry.jt'
+_inner = dict(_outer)
+_inner.update({
+    'block': 'block == old.self.graph[name] and name in self.graph',
+    'jt-len': 'len(jt) == len(%s)' % EJ,
+    'jt-kept': 'all(implies(%s[i] not in _j_seen, jt[i] == %s[i]) for i in range(len(%s)))' % (EJ, EJ, EJ),
+    'jt-rerouted': 'all(implies(%s[i] in _j_seen, jt[i] not in old.self.graph and jt[i] != new_name'
+                   ' and is_assign_to(self.graph[jt[i]], jt[i], new_name, %s)'
+                   ' and self.graph[jt[i]].variable_assignment[%s] in branch_value_table'
+                   ' and branch_value_table[self.graph[jt[i]].variable_assignment[%s]] == %s[i]) for i in range(len(%s)))'
+                   % (EJ, VAR, VAR, VAR, EJ, EJ),
+})
+
 register(Contract(
     qual=SC + ':SCFG.insert_block_and_control_blocks', params=dict(IB_PARAMS), modifies=['self.graph', 'self.name_gen.kinds'],
-    e1=False, gen='insert_ctrl',
+    gen='insert_ctrl', locals={'branch_value_table': 'dict[int,name]', 'variable_assignment': 'dict[name,int]', 'jt': 'list[name]'},
     requires={
         'keys': KEYS,
         'fresh': 'new_name not in self.graph',
+        'new-not-generated': 'not (is_generated(new_name, "synth_asign") and gen_index(new_name) >= get(self.name_gen.kinds, "synth_asign", 0))',
         'preds-in': 'all(p in self.graph for p in predecessors)',
         'preds-distinct': 'distinct(predecessors)',
         'succs-distinct': 'distinct(successors)',
         'targets-distinct': 'all(distinct(self.graph[p]._jump_targets) for p in predecessors)',
         'succs-targeted': 'all(any(s in self.graph[p].jump_targets for p in predecessors) for s in successors)',
-        'generator-fresh': 'all(block_name("synth_asign", get(self.name_gen.kinds, "synth_asign", 0) + k) not in self.graph for k in range(8))',
+        'kinds-nonneg': 'all(self.name_gen.kinds[k] >= 0 for k in self.name_gen.kinds)',
+        # NG_inv for assignment-block names: no block of the graph already carries a name the generator is about to hand out
+        'generator-fresh': 'all(not (is_generated(k, "synth_asign") and gen_index(k) >= get(self.name_gen.kinds, "synth_asign", 0)) for k in self.graph)',
         'branch-preds': 'all(table_ok(self.graph[p]) for p in predecessors if isinstance(self.graph[p], SyntheticBranch))',
     },
     known={'R3': 'any(len(self.graph[p].backedges) != 0 for p in predecessors)'},
-    ensures={
-        'head': 'type(self.graph[new_name]) is SyntheticHead and self.graph[new_name]._jump_targets == tuple(successors)'
-                ' and self.graph[new_name].backedges == ()'
-                ' and self.graph[new_name].variable == var_name("control", get(old.self.name_gen.kinds, "control", 0))',
-        'table': 'self.graph[new_name].branch_value_table == {k: s for k, (p, s) in enumerate(%s)}' % ARCS,
-        'assignments': 'all(self.graph[block_name("synth_asign", %s + k)] == SyntheticAssignment(block_name("synth_asign", %s + k), (new_name,), (),'
-                       ' {var_name("control", get(old.self.name_gen.kinds, "control", 0)): k}) for k in range(len(%s)))' % (A0, A0, ARCS),
-        'preds': 'all(self.graph[p]._jump_targets == tuple(block_name("synth_asign", %s + (%s).index((p, t))) if (p, t) in %s else t'
-                 ' for t in old.self.graph[p]._jump_targets) for p in predecessors)' % (A0, ARCS, ARCS),
-        'preds-same-otherwise': 'all(ib_plain(old.self.graph[p], self.graph[p]) and ib_branch(old.self.graph[p], self.graph[p])'
-                                ' and ib_branch_renamed(old.self.graph[p], self.graph[p]) and ib_branch_table(old.self.graph[p], self.graph[p])'
-                                ' for p in predecessors)',
-        'dom': 'set(self.graph) == set(old.self.graph) | {new_name} | {block_name("synth_asign", %s + k) for k in range(len(%s))}' % (A0, ARCS),
-        'others': 'all(self.graph[b] == old.self.graph[b] for b in old.self.graph if b not in predecessors)',
-        'kinds': 'self.name_gen.kinds == updated(updated(old.self.name_gen.kinds, "control", get(old.self.name_gen.kinds, "control", 0) + 1),'
-                 ' "synth_asign", %s + len(%s)) if len(%s) > 0 else self.name_gen.kinds == updated(old.self.name_gen.kinds, "control",'
-                 ' get(old.self.name_gen.kinds, "control", 0) + 1)' % (A0, ARCS, ARCS),
-        'keys': KEYS,
+    ensures=_ens,
+    runtime_ensures={
+        # exact generated names and constants (functional => independent of set iteration order, C12)
+        'table-exact': 'self.graph[new_name].branch_value_table == {k: s for k, (p, s) in enumerate(%s)}' % ARCS,
+        'assignments-exact': 'all(self.graph[block_name("synth_asign", %s + k)] == SyntheticAssignment(block_name("synth_asign", %s + k), (new_name,), (),'
+                             ' {%s: k}) for k in range(len(%s)))' % (A0, A0, VAR, ARCS),
+        'preds-exact': 'all(self.graph[p]._jump_targets == tuple(block_name("synth_asign", %s + (%s).index((p, t))) if (p, t) in %s else t'
+                       ' for t in old.self.graph[p]._jump_targets) for p in predecessors)' % (A0, ARCS, ARCS),
+        'dom-exact': 'set(self.graph) == set(old.self.graph) | {new_name} | {block_name("synth_asign", %s + k) for k in range(len(%s))}' % (A0, ARCS),
+    },
+    loops={
+        'for name in predecessors': LoopSpec(inv=_outer, frame=['untouched']),
+        'for s in sorted(set(jt).intersection(successors))': LoopSpec(index='_j', inv=_inner, frame=['untouched']),
+    },
+    frame_clauses=['others'],
+    hints={
+        'jt.index(s)': ['jt-kept', 'jt-len', 'block'],
+        'pred-rerouted': ['pred-rerouted', 'jt-rerouted', 'jt-kept', 'jt-len', 'block', 'table-keys', 'assign-blocks', 'kinds-assign', 'dom-old', 'keys', 'pred-len', 'untouched',
+                          'def', 'name', 'kinds', 'var', 'new-absent'],
+        'table-vals': ['table-vals', 'table-keys'],
+        'jt-kept': ['jt-kept', 'jt-len'],
+        'jt-rerouted': ['jt-rerouted', 'jt-kept', 'jt-len', 'table-keys', 'assign-blocks', 'kinds-assign', 'dom-old', 'keys', 'def', 'name', 'kinds', 'var', 'new-absent', 'block'],
     },
     properties=['C14', 'C06', 'C12', 'C18'],
-    note='exact generated names and constants in the postcondition => functional => independent of set iteration order (C12)',
+    note='exact generated names and constants are checked at run time (runtime_ensures); the proved clauses state them up to the order of hand-out',
 ))
 
 EXITS = '{n for n in old.self.graph if old.self.graph[n].is_exiting}'
